@@ -21,7 +21,7 @@ WORDS = ["alpha", "beta", "gamma", "delta", "omega", "sigma", "kappa", "zeta"]
 
 LANGS = ["English (en)", "French (fr)", "es", "Klingon", "default", "English", "French"]
 
-NAME_PREFIX = ["q", "a", "x_", "n-", "v.", "é", "_", "Q", "k9"]
+NAME_PREFIX = ["q", "a", "x_", "n-", "v.", "é", "_", "Q", "k9", "guidance_hint_", "hint", "label_", "q_guidance_hint", "group_", "repeat_", "meta_", "jr_"]
 
 
 def _bad_plain(s: str) -> bool:
@@ -64,6 +64,7 @@ class G:
         self.search_lists = set()
         self.plain_lists = set()
         self._used_tags = set()
+        self.osm_rows = []
 
     # -- primitives.  Every random choice is read from byte blocks drawn from Hypothesis
     # (one `st.binary` draw per 1024 bytes): ~40x cheaper than one draw per decision, and a
@@ -455,6 +456,24 @@ class G:
             c["parameters"] = "quality=" + self.pick(["voice-only", "low", "normal"])
         return {"k": "q", "c": c}
 
+    def osm_question(self):
+        """an OpenStreetMap upload question, with or without a tag list from the osm sheet"""
+        c = {"type": "osm", "name": self.name()}
+        self.add_labels(c)
+        if self.p("_", 0.7):
+            ln = self.pick(["otags", "otags2"])
+            c["type"] = f"osm {ln}"
+            if not any(r["list_name"] == ln for r in self.osm_rows):
+                for tname in self.pick([["building"], ["building", "highway"], ["amenity", "building", "name"]]):
+                    row = {"list_name": ln, "name": tname}
+                    self.put_translated(row, "label", lambda: self.text("OT"), p_lang=bool(self.langs) and self.p("_", 0.6))
+                    self.osm_rows.append(row)
+                if self.p("_", 0.5):
+                    self.osm_rows.append({"list_name": "building", "name": "yes", "label": "Yes"})
+                    self.osm_rows.append({"list_name": "building", "name": "no", "label": "No"})
+        self.names.append(c["name"])
+        return {"k": "q", "c": c}
+
     def external_question(self):
         kind = self.pick(self.P.get("external_kinds", ["from_file", "xml-external", "csv-external"]))
         if kind == "from_file":
@@ -492,6 +511,8 @@ class G:
                     out.append(self.meta_question())
                 elif P("p_external", 0.0):
                     out.append(self.external_question())
+                elif P("p_osm", 0.0):
+                    out.append(self.osm_question())
                 else:
                     out.append(self.question(depth, inside_repeat))
                 if P("p_blank_row", 0.05):
@@ -605,6 +626,8 @@ def build_form(draw, P, g=None):
     # an unused list now and then
     if g.p("p_unused_list", 0.1):
         g.make_list(f"unused{len(g.lists)}")
+    if g.osm_rows:
+        form["osm"] = g.osm_rows
     if g.lists:
         form["lists"] = g.lists
     s = g.settings()
